@@ -75,6 +75,14 @@ func tamper(r *rec, orig []byte, idx int, seed int64) []byte {
 		}
 		con[r.KIn] = valueOf(r.Ver, r.Proto.Type, r.KIn, "tampered", seed)
 	}
+	if has["tpi_chg"] {
+		var tpi map[string]json.RawMessage
+		if err := json.Unmarshal(con["third_party_invite"], &tpi); err != nil {
+			panic("harness: third_party_invite to change is not an object")
+		}
+		tpi["signed"] = signedValue("tampered")
+		con["third_party_invite"] = marshalRawMap(tpi)
+	}
 	ev["content"] = marshalRawMap(con)
 	if has["top_add"] {
 		ev["zz_top"] = []json.RawMessage{json.RawMessage(`"extra"`), json.RawMessage(`{"a":[1,2]}`), json.RawMessage(`17`)}[idx%3]
